@@ -13,6 +13,9 @@ def run(rep, kf, tier, seed):
     for r in core.run_parallel(ref_tasks("C17", tier, seed, kf)[:-1]):
         r.obligations = [o for o in r.obligations if "C17" in o.props or o.id.endswith("no-exception-escapes")]
         rep.merge(r)
+    # a multipart body written as a wrapper around a reference marks the registered model exactly like the bare reference
+    import contracts.responses_b as rb
+    engine_b.discharge(rep, kf, [rb.body_from_data_contract()], "C17", tier, seed)
     run_bounded(rep, kf, "C17", ["equivalent_docs"], tier)
     rep.trusted.extend(["pyvc Engine B", "pydantic runs the model validators on every Schema (assumed)"])
     rep.assumptions.extend([
